@@ -45,6 +45,43 @@ def validate_no_overlapping_sections(sections: dict[str, list[slice]]):
     ), "Sections contains overlapping stretches"
 
 
+def validate_no_shared_locations(x: xr.DataArray, sections: dict[str, list[slice]]):
+    """Check that each stretch selects at least one location and that no
+    location is selected by more than one stretch. Stretches select by label
+    and include both end points, so two stretches that touch at a location of
+    the x-coordinate would both use that location.
+
+    Parameters
+    ----------
+    x : xr.DataArray
+        The x-coordinate of the measurements.
+    sections : dict[str, list[slice]]
+        The keys of the dictionary are the names of the sections.
+        The values are lists of slice objects.
+
+    Raises:
+    ------
+    AssertionError
+        If a stretch selects no location or a location is selected twice.
+    """
+    x_selected = []
+
+    for k, v in sections.items():
+        for vi in v:
+            x_vi = x.sel(x=vi).values
+            assert x_vi.size > 0, (
+                f"Better define the {k} section. You tried {vi}, "
+                "which is not within the x-dimension"
+            )
+            x_selected.append(x_vi)
+
+    if x_selected:
+        x_all = np.concatenate(x_selected)
+        assert (
+            np.unique(x_all).size == x_all.size
+        ), "Sections contains stretches that share a location"
+
+
 def validate_sections_definition(sections: dict[str, list[slice]]):
     """Check if the sections are defined correctly. The sections are defined
     correctly if:
@@ -122,6 +159,8 @@ def validate_sections(ds: xr.Dataset, sections: dict[str, list[slice]]):
                 f"Better define the {k} section. You tried {vi}, "
                 "which is not within the x-dimension"
             )
+
+    validate_no_shared_locations(ds.x, sections=sections)
 
 
 def ufunc_per_section(
